@@ -239,6 +239,7 @@ class MoleculeResolver:
         fragment_dict: dict[str, networkx.Graph]
             a dict of fragment graphs
         """
+        fragids = {}
         for meta_node in self.meta_graph.nodes:
             fragname = self.meta_graph.nodes[meta_node]['fragname']
 
@@ -257,6 +258,7 @@ class MoleculeResolver:
 
             for node in fragment.nodes:
                 new_node = correspondence[node]
+                fragids[new_node] = [meta_node]
                 attrs = copy.deepcopy(self.molecule.nodes[new_node])
                 graph_frag.add_node(correspondence[node], **attrs)
                 nx.set_node_attributes(graph_frag, [meta_node], 'fragid')
@@ -272,6 +274,10 @@ class MoleculeResolver:
                                     **attrs)
 
             self.meta_graph.nodes[meta_node]['graph'] = graph_frag
+
+        # fine nodes refer to their coarse node by its key; the running index
+        # used while merging differs from it as soon as a virtual node is skipped
+        nx.set_node_attributes(self.molecule, fragids, 'fragid')
 
     def edges_from_bonding_descrpt(self, all_atom=True):
         """
